@@ -21,6 +21,7 @@ func init() {
 	vHarnesses["H_C06_numbers"] = H_C06_numbers
 	vHarnesses["H_C20_load"] = H_C20_load
 	vHarnesses["H_C17_dcg"] = H_C17_dcg
+	vHarnesses["H_C17_shape"] = H_C17_shape
 	vHarnesses["H_C16_rel"] = H_C16_rel
 	vHarnesses["H_C18_ops"] = H_C18_ops
 	vHarnesses["H_C08_order"] = H_C08_order
@@ -140,6 +141,12 @@ func H_C18_ops(inst int) {
 func H_C16_rel(inst int) {
 	i := newFull()
 	engine.VH_C16(&i.VM, inst)
+}
+
+// H_C17_shape: generated family of DCG body shapes with a cut element at every position (engine.VH_C17_shape).
+func H_C17_shape(inst int) {
+	i := newFull()
+	engine.VH_C17_shape(&i.VM, inst)
 }
 
 // H_C17_dcg: grammar `inst`: expand_term + assertz of every rule, then phrase/2,3 vs the reference translation.
